@@ -3,7 +3,7 @@ import ast
 
 from .astutil import fold, NotConstant, unparse, dotted
 from .bitcells import (Unsupported, Param, View, Bits, CU32, ModVal, XorVal, Maybe, TableVal, Opaque, FuncValue, TOP,
-                       PCell, INF)
+                       PCell, INF, Record, RecordType)
 
 CONSTS = (int, bool, str, type(None))
 STR_METHODS = {'lower', 'upper', 'strip', 'lstrip', 'rstrip', 'startswith', 'endswith', 'replace', 'casefold', 'title'}
@@ -90,6 +90,12 @@ class ExprMixin:
             return v
         if name in mm.global_decl:
             raise Unsupported('module-level name {!r} is rebound by a function (global statement)'.format(name))
+        if name in facts.classes:
+            if not mm.stable(name):
+                raise Unsupported('class {!r} is bound more than once at module level'.format(name))
+            v = self.record_class(facts.classes[name].node)
+            mm.values[name] = v
+            return v
         if mm.written_by_functions(name) and not (name in facts.tables and mm.table_mode(name) == 'extended'):
             raise Unsupported('module-level name {!r} is modified by a function'.format(name))
         if name in facts.consts and mm.stable(name):
@@ -126,14 +132,46 @@ class ExprMixin:
             v.label = name
         return v
 
+    def record_class(self, cdef):
+        """class X(NamedTuple) / @dataclass class X with annotated fields only -> RecordType"""
+        bases = [dotted(b) for b in cdef.bases]
+        decos = [dotted(d.func if isinstance(d, ast.Call) else d) for d in cdef.decorator_list]
+        is_nt = any(b in ('NamedTuple', 'typing.NamedTuple') for b in bases) and len(bases) == 1 and not decos
+        is_dc = (not bases or bases == ['object']) and len(decos) == 1 and decos[0] in ('dataclass', 'dataclasses.dataclass')
+        if not (is_nt or is_dc):
+            raise Unsupported('class {} is not a plain record (NamedTuple / dataclass)'.format(cdef.name))
+        fields, defaults = [], {}
+        for s in cdef.body:
+            if isinstance(s, ast.Expr) and isinstance(s.value, ast.Constant):
+                continue
+            if isinstance(s, ast.AnnAssign) and isinstance(s.target, ast.Name):
+                fields.append(s.target.id)
+                if s.value is not None:
+                    defaults[s.target.id] = self.default_value(s.value, cdef)
+                continue
+            if isinstance(s, ast.Assign) and len(s.targets) == 1 and isinstance(s.targets[0], ast.Name):
+                # the loader rewrites `x: T = v` to `x = v`
+                fields.append(s.targets[0].id)
+                defaults[s.targets[0].id] = self.default_value(s.value, cdef)
+                continue
+            if isinstance(s, ast.Pass):
+                # the loader rewrites a bare `x: T` to `pass`: the field names are gone
+                raise Unsupported('record class {}: field declarations without defaults are not visible to the analysis'.format(cdef.name))
+            if isinstance(s, ast.FunctionDef) and not (s.name.startswith('__') and s.name.endswith('__')):
+                continue        # plain methods do not change construction or field access
+            raise Unsupported('class {} has members beyond annotated fields'.format(cdef.name))
+        return RecordType(cdef.name, fields, defaults, is_nt)
+
     def is_static(self, v):
-        if isinstance(v, CONSTS) or isinstance(v, (Opaque, FuncValue)):
+        if isinstance(v, CONSTS) or isinstance(v, (Opaque, FuncValue, RecordType)):
             return True
+        if isinstance(v, Record):
+            return all(self.is_static(x) for x in v.values.values())
         if isinstance(v, list):
             return all(self.is_static(x) for x in v)
         if isinstance(v, dict):
             return all(self.is_static(x) for x in v.values())
-        if isinstance(v, (set, frozenset)):
+        if isinstance(v, (set, frozenset, range)):
             return True
         return False
 
@@ -174,6 +212,15 @@ class ExprMixin:
             return Opaque('f-string')
         if isinstance(node, (ast.ListComp, ast.GeneratorExp)):
             return self.comprehension(node, st)
+        if isinstance(node, ast.DictComp):
+            pair = ast.copy_location(ast.Tuple(elts=[node.key, node.value], ctx=ast.Load()), node)
+            fake = ast.copy_location(ast.ListComp(elt=pair, generators=node.generators), node)
+            out = {}
+            for k, v in self.comprehension(fake, st) or []:
+                if not isinstance(k, (int, str)):
+                    raise Unsupported('dict key is not a constant: {}'.format(unparse(node.key)))
+                out[k] = v
+            return out
         if isinstance(node, ast.UnaryOp):
             if isinstance(node.op, ast.Not):
                 return self.truth_value(node, st)
@@ -201,6 +248,8 @@ class ExprMixin:
             base = self.ev(node.value, st)
             if isinstance(base, CU32) and node.attr == 'value':
                 return self.trunc32(base.v, st, node)
+            if isinstance(base, Record) and node.attr in base.values:
+                return base.values[node.attr]
             raise Unsupported('attribute .{} on abstract value'.format(node.attr))
         if isinstance(node, ast.Subscript):
             return self.subscript(node, st)
@@ -225,6 +274,8 @@ class ExprMixin:
             it = self.ev(g.iter, st)
             if isinstance(it, dict):
                 it = list(it.keys())
+            if isinstance(it, range) and len(it) <= 4096:
+                it = list(it)
             if not isinstance(it, list):
                 raise Unsupported('comprehension over something that is not a folded sequence: {}'.format(unparse(node)))
             for elem in it:
@@ -280,6 +331,8 @@ class ExprMixin:
             if idx not in base:
                 raise Unsupported('key {!r} missing in folded dict'.format(idx))
             return base[idx]
+        if isinstance(base, Record) and base.rtype.is_tuple:
+            base = base.as_list()
         if isinstance(base, list) and isinstance(idx, int) and not isinstance(idx, bool):
             if not -len(base) <= idx < len(base):
                 raise Unsupported('index {} outside folded sequence'.format(idx))
@@ -373,11 +426,12 @@ class ExprMixin:
                 return fold(ast.BinOp(left=ast.Constant(value=a), op=node.op, right=ast.Constant(value=b)))
             except NotConstant as e:
                 raise Unsupported('cannot fold {}: {}'.format(unparse(node), e))
-        if isinstance(a, (str, list)) and isinstance(b, (str, list, int)) and op in (ast.Add, ast.Mult, ast.Mod):
-            if isinstance(a, str) and op is ast.Mod:
-                return Opaque('%-format')
-            if type(a) == type(b) and op is ast.Add:
-                return a + b
+        if isinstance(a, str) and op is ast.Mod:
+            return Opaque('%-format')
+        if isinstance(a, (str, list)) and type(a) == type(b) and op is ast.Add:
+            return a + b
+        if isinstance(a, (str, list)) and isinstance(b, int) and not isinstance(b, bool) and op is ast.Mult and 0 <= b <= 64:
+            return a * b
         if isinstance(a, Opaque) or isinstance(b, Opaque):
             if op in (ast.Add, ast.Mod) and (isinstance(a, (str, Opaque))):
                 return Opaque('string expression')
@@ -412,7 +466,8 @@ class ExprMixin:
                     and len(a.bits) == k - 1 and all(x == (top[0], j) for j, x in enumerate(a.bits))):
                 self.retract(a, b)
                 return self.sext(top[0], k, st, node)
-        if op is ast.Add and (isinstance(a, Bits) or isinstance(b, Bits)) and isinstance(a, (Bits, int)) and isinstance(b, (Bits, int)):
+        if op is ast.Add and (isinstance(a, Bits) or isinstance(b, Bits)) and isinstance(a, (Bits, int, View)) \
+                and isinstance(b, (Bits, int, View)) and not (isinstance(a, int) and a < 0) and not (isinstance(b, int) and b < 0):
             ab, bb = self.to_bits(a, st, node), self.to_bits(b, st, node)
             if all(x == 0 or y == 0 for x, y in zip(ab.bits, bb.bits)):
                 # no carries: the sum of bit-disjoint fields is their union
